@@ -47,7 +47,8 @@ CLAIM = dict(
           "correspondence on generated forests and by request-trace and final-router correspondence of the real "
           "MachineController against the Lean machine `runM` (the function the theorems are about) and a simulated router "
           "that is itself replayed through the Lean specification on every run, including a stream in which alloc_rtr "
-          "requests or their replies are lost; the Lean predicates LoadSpec/ReadbackSpec/TablesLoadSpec/TablesSpec are "
+          "requests or their replies are lost and sessions of several loads through one controller in which the caller "
+          "re-uses and edits the same list object (each load judged against the list at the time of the call); the Lean predicates LoadSpec/ReadbackSpec/TablesLoadSpec/TablesSpec are "
           "evaluated on the implementation's own outputs."),
     design="3/C10",
     note=("Proved: everything listed in THEOREMS, for all inputs. Validated only (differential, every run): that the Lean "
@@ -60,7 +61,12 @@ CLAIM = dict(
           "not as a violation; a changed router on a chip that has no table is a violation. The hardware stores no "
           "sources: read-back is compared on key, mask, route, app id. alloc_rtr is not idempotent: a retransmission after "
           "a lost reply leaks a block until the application is stopped; the property's clauses still hold (theorem), the "
-          "leak is counted in evidence (coverage.retransmitted_alloc), not reported. General loss/reordering is C06/C07."),
+          "leak is counted in evidence (coverage.retransmitted_alloc), not reported. General loss/reordering is C06/C07. "
+          "The theorems are about one call from an arbitrary machine state; that the controller carries nothing from one "
+          "call to the next (packed table, sv addresses, allocation base) is validated by the session stream, not proved: a "
+          "carried value that changes the router content is a violation, one that only changes the commands sent (e.g. a "
+          "cached staging buffer address that still loads the right entries) is a broken correspondence. scp_data_length "
+          "is cached by the controller by design and constant within a session."),
     technique="Lean 4 theorems over a hand-written model + differential correspondence + Lean spec as oracle")
 
 THEOREMS = ["routes_enum_documented", "traverse_exact", "tables_exact", "multisource_iff", "tables_total",
@@ -82,9 +88,17 @@ RULE = ("pure cases = forests of 1-6 nets on a 4x4 torus: random branching trees
         "buffer sizes 16..512, random router free-list states (fragmented, full, empty) and allocation policies (first "
         "fit, last fit, random fit, refuse), 0-2 bystander chips that have a router state but no table, followed by a full "
         "read-back and optionally a clear; lossy stream = the same with the first one or two transmissions of a chip's "
-        "alloc_rtr request or of its reply lost (the chip then executes the allocation twice); non-trivial = (pure) at "
+        "alloc_rtr request or of its reply lost (the chip then executes the allocation twice); sessions = 2-5 loads through "
+        "ONE MachineController onto one simulated machine of 2-4 chips with pairwise different sv.sdram_sys / sv.rtr_copy "
+        "values, router states and allocation policies: the caller re-uses the same list object (edited in place between "
+        "loads: replace - also same key/mask with another route -, append, insert, extend, delete, reverse, swap, clear; "
+        "or unchanged), interleaved with fresh lists, changing app ids, load_routing_tables with several chips sharing "
+        "one list object, the same or another chip as target, and read-backs of loaded and other chips in between; every "
+        "load is judged by the Lean oracles against the list as it is at the time of that call and the router as it "
+        "was when the call started; the replay payload is the whole session; non-trivial = (pure) at "
         "least two nodes share chip+key+mask, (machine) a table of >= 2 entries was loaded or an allocation failed with a "
-        "non-empty router or a block was leaked by a retransmitted allocation; distinct = distinct canonical JSON of the case")
+        "non-empty router or a block was leaked by a retransmitted allocation, (session) a list object that had been "
+        "loaded before was edited and loaded again; distinct = distinct canonical JSON of the case")
 
 LINK_VEC = simmachine.LINK_VEC
 W = H = 4
@@ -632,12 +646,15 @@ def run_load_impl(case, full, sv):
     return res
 
 
-def chip_states(full, rows_by_chip, sv):
+def chip_states(full, rows_by_chip, sv, extra=None):
+    """chip states for the Lean side; `extra` = {chip: [[addr, byte], ...]} memory known beyond the two sv words
+    (sessions: what the staging buffer holds when the step starts)"""
     out = []
     for c in full["chips"] + full.get("bystanders", []):
         xy = tuple(c["chip"])
         mem = [[sv["base"] + sv["sdram_sys"] + i, b] for i, b in enumerate(struct.pack("<I", c["sys_buf"]))] + \
               [[sv["base"] + sv["rtr_copy"] + i, b] for i, b in enumerate(struct.pack("<I", c["copy_base"]))]
+        mem += (extra or {}).get(xy, [])
         out.append({"chip": list(xy), "mem": mem, "rows": rows_by_chip[xy], "copy_base": c["copy_base"]})
     return out
 
@@ -657,7 +674,12 @@ def prepare_load(case, sv):
     """run the implementation on one machine case; returns (state, lean requests)"""
     full = expand_load(case)
     res = run_load_impl(case, full, sv)
-    chips0 = chip_states(full, res["rows0"], sv)
+    return prepare_from(case, full, res, sv)
+
+
+def prepare_from(case, full, res, sv, label="", model_get=True):
+    """Lean requests (simulator replay, controller model, oracles) for one observed load (+ read-backs)"""
+    chips0 = chip_states(full, res["rows0"], sv, res.get("mem0"))
     chips1 = chip_states(full, res["rows1"], sv)
     # observed allocation answers per chip, in order (those the controller received / those whose reply was lost)
     bases = [[p["req"][:2], p["arg1"]] for p in res["pairs"]
@@ -675,7 +697,7 @@ def prepare_load(case, sv):
     chip_list = [tuple(c["chip"]) for c in full["chips"]]
     bystanders = [tuple(c["chip"]) for c in full.get("bystanders", [])]
     rb_list = [tuple(c) for c in full["readback"]]
-    for xy in rb_list:
+    for xy in (rb_list if model_get else []):
         reqs.append({"suite": "c10", "op": "get_model", "chips": chips1, "scp_len": full["buf"], "x": xy[0], "y": xy[1]})
     if full["clear"]:
         reqs.append({"suite": "c10", "op": "clear_model", "chips": chips1, "x": chip_list[0][0], "y": chip_list[0][1],
@@ -738,15 +760,17 @@ def prepare_load(case, sv):
         if "ok" in res["readback"][xy]:
             rb_idx[xy] = len(reqs)
             reqs.append({"suite": "c10", "op": "readback_spec", "rows": res["rows1"][xy], "table": res["readback"][xy]["ok"]})
-    del res["machine"]
-    st = dict(case=case, full=full, res=res, chip_list=chip_list, rb_list=rb_list, raised=raised, reached=reached,
+    res.pop("machine", None)
+    st = dict(label=label, model_get=model_get, case=case, full=full, res=res, chip_list=chip_list, rb_list=rb_list, raised=raised, reached=reached,
               oracle_idx=oracle_idx, rb_idx=rb_idx, in_domain=in_domain, bystanders=bystanders, mid_idx=mid_idx,
               rows_before=rows_before, machine_idx=machine_idx, n_of=n_of)
     return st, reqs
 
 
-def judge_load(ctx, st, out):
+def judge_load(ctx, st, out, count=True):
+    """judge one observed load; returns whether it was non-trivial (and counts the case unless count=False)"""
     case, full, res = st["case"], st["full"], st["res"]
+    label = st.get("label", "")
     chip_list, rb_list, raised, reached = st["chip_list"], st["rb_list"], st["raised"], st["reached"]
     ctx.traces += 1
     # ---- simulator against the Lean router specification ----------------------------------------
@@ -778,7 +802,7 @@ def judge_load(ctx, st, out):
         ctx.mismatch("c10.load_outcome", "model=%r impl=%r" % (lm["outcome"], res["outcome"]), case)
     elif {tuple(c): rows for c, rows in lm["final"]} != {xy: res["rows1"][xy] for xy in chip_list + st["bystanders"]}:
         ctx.mismatch("c10.load_final", "router contents differ between model run and simulated machine", case)
-    for k, xy in enumerate(rb_list):
+    for k, xy in enumerate(rb_list if st.get("model_get", True) else []):
         gm = out[2 + k]
         if gm["trace"] != res["trace_get"][xy]:
             ctx.mismatch("c10.get_trace", "read-back commands differ (counts %d/%d)" % (
@@ -807,13 +831,14 @@ def judge_load(ctx, st, out):
     nontrivial = False
     if not st["in_domain"]:
         ctx.tag("out_of_domain_key")
-        ctx.case(case, False)
-        return
+        if count:
+            ctx.case(case, False)
+        return False
     reported = [False]
 
     def violation(key, what):
         reported[0] = True
-        ctx.violation(key, what, case)
+        ctx.violation(key, label + what, case)
     if isinstance(res["outcome"], list) and res["outcome"][0] != "RouterError":
         violation("unexpected-error", "loading raised %r" % (res["outcome"],))
     any_failed = False
@@ -910,7 +935,9 @@ def judge_load(ctx, st, out):
     for xy, kinds in full.get("loss", []):
         if "request" in kinds:
             ctx.tag("alloc_request_lost")
-    ctx.case(case, nontrivial)
+    if count:
+        ctx.case(case, nontrivial)
+    return nontrivial
 
 
 def eval_loads(ctx, cases, batch=40):
@@ -925,6 +952,237 @@ def eval_loads(ctx, cases, batch=40):
         out = ctx.lean(reqs)
         for st, (a, b) in zip(sts, spans):
             judge_load(ctx, st, out[a:b])
+
+
+# --------------------------------------------------------------------------------------------
+# sessions: several loads through ONE MachineController onto one simulated machine
+# --------------------------------------------------------------------------------------------
+#
+# A session case is self-contained (replay carries all of it):
+#   {"kind": "session", "buf": scp_data_length, "window": w,
+#    "chips": [{"chip": [x, y], "sys_buf", "copy_base", "rows_kind", "rows_seed", "policy", "pseed", "zero"}, ...],
+#    "steps": [{"mut": [mutation, ...], "op": "load", "list": id, "chip": [x, y], "app": a, "readback": [[x, y], ...]} |
+#              {"mut": [...], "op": "tables", "tables": [[[x, y], id], ...], "app": a, "readback": [...]}]}
+# mutation (applied IN PLACE to the caller's list object `list`, in order, before the step's call):
+#   {"m": "new", "list": id, "entries": [...]}  a fresh list object under that name
+#   {"m": "replace", "list", "i", "e"} | {"m": "append", "list", "e"} | {"m": "insert", "list", "i", "e"} |
+#   {"m": "delete", "list", "i"} | {"m": "reverse", "list"} | {"m": "swap", "list", "i", "j"} |
+#   {"m": "clear", "list"} | {"m": "extend", "list", "entries"}
+# Every load is judged against the list's content at the time of that call.
+
+def apply_mutation(lst, mu, mk):
+    """the same in-place edit on a list of implementation entries (mk = constructor) or of plain data (mk = identity)"""
+    m = mu["m"]
+    if m == "replace":
+        lst[mu["i"]] = mk(mu["e"])
+    elif m == "append":
+        lst.append(mk(mu["e"]))
+    elif m == "insert":
+        lst.insert(mu["i"], mk(mu["e"]))
+    elif m == "delete":
+        del lst[mu["i"]]
+    elif m == "reverse":
+        lst.reverse()
+    elif m == "swap":
+        lst[mu["i"]], lst[mu["j"]] = lst[mu["j"]], lst[mu["i"]]
+    elif m == "clear":
+        del lst[:]
+    elif m == "extend":
+        lst.extend([mk(e) for e in mu["entries"]])
+    else:
+        raise ValueError(m)
+
+
+def gen_session(rng):
+    n_chips = rng.choice([2, 2, 3, 3, 4])
+    coords = rng.sample([(x, y) for x in range(W) for y in range(H)], n_chips)
+    bufs = rng.sample(range(0x10000), n_chips)
+    copies = rng.sample(range(0x1000), n_chips)
+    chips = []
+    for i, xy in enumerate(coords):
+        chips.append({"chip": list(xy), "sys_buf": 0x60000000 + 4 * bufs[i], "copy_base": 0x70000000 + 16 * copies[i],
+                      "rows_kind": rng.choice(["empty", "empty", "frag"]), "rows_seed": rng.randrange(1 << 30),
+                      "policy": rng.choice(["first", "first", "last", "rand", "rand", "refuse"] if rng.random() < 0.15
+                                           else ["first", "last", "rand"]),
+                      "pseed": rng.randrange(1 << 30), "zero": rng.random() < 0.5})
+    content = {}          # list id -> current plain content (generator-side mirror)
+    steps = []
+    last = None           # id of the list object loaded by the previous step
+    n_lists = 0
+    app = rng.choice([1, 16, 30, 66, 255])
+    for k in range(rng.choice([2, 3, 3, 4, 5])):
+        mut = []
+        r = rng.random()
+        if last is None or r < 0.2:
+            mode = "fresh"
+        elif r < 0.8:
+            mode = "mutated"
+        else:
+            mode = "same"
+        if mode == "fresh":
+            lid = "l%d" % n_lists
+            n_lists += 1
+            content[lid] = gen_entries(rng, rng.choice([0, 1, 2, 3, 3, 4, 5, 8, 12, 20]))
+            mut.append({"m": "new", "list": lid, "entries": [list(e) for e in content[lid]]})
+        else:
+            lid = last if rng.random() < 0.8 else rng.choice(sorted(content))
+            if mode == "mutated":
+                for _ in range(rng.choice([1, 1, 2, 3])):
+                    cur = content[lid]
+                    kinds = ["append", "append", "insert", "extend"] + \
+                            (["replace", "replace", "replace", "delete", "delete", "reverse", "swap", "clear"] if cur else [])
+                    m = rng.choice(kinds)
+                    mu = {"m": m, "list": lid}
+                    if m in ("replace", "delete"):
+                        mu["i"] = rng.randrange(len(cur))
+                    if m == "insert":
+                        mu["i"] = rng.randrange(len(cur) + 1)
+                    if m == "swap":
+                        mu["i"], mu["j"] = rng.randrange(len(cur)), rng.randrange(len(cur))
+                    if m in ("replace", "append", "insert"):
+                        mu["e"] = gen_entries(rng, 1)[0]
+                        if m == "replace" and rng.random() < 0.4:
+                            # a small edit: same key and mask, another route / same route, another key
+                            old = cur[mu["i"]]
+                            mu["e"] = [mu["e"][0], old[1], old[2]] if rng.random() < 0.5 else [old[0], mu["e"][1], old[2]]
+                    if m == "extend":
+                        mu["entries"] = gen_entries(rng, rng.choice([1, 2, 5]))
+                    apply_mutation(cur, mu, lambda e: list(e))
+                    mut.append(mu)
+        if rng.random() < 0.3:
+            app = rng.choice([0, 1, 16, 30, 66, 255, rng.randrange(256)])
+        targets = rng.sample(coords, min(n_chips, rng.choice([1, 1, 2, 3])) if rng.random() < 0.35 else 1)
+        rb = [list(xy) for xy in targets if rng.random() < 0.35] + \
+             [list(xy) for xy in coords if xy not in targets and rng.random() < 0.1]
+        if len(targets) == 1 and rng.random() < 0.75:
+            step = {"mut": mut, "op": "load", "list": lid, "chip": list(targets[0]), "app": app, "readback": rb}
+        else:
+            # a dict of tables: chips share the list object, or some get another existing list
+            tabs = []
+            for xy in targets:
+                other = rng.choice(sorted(content))
+                tabs.append([list(xy), lid if rng.random() < 0.7 else other])
+            step = {"mut": mut, "op": "tables", "tables": tabs, "app": app, "readback": rb}
+        steps.append(step)
+        last = lid
+    return {"kind": "session", "buf": rng.choice([64, 128, 256, 256]), "window": rng.choice([1, 1, 2, 8]),
+            "chips": chips, "steps": steps}
+
+
+def run_session_impl(case, sv):
+    """one controller, one machine, all steps; returns [(full, res, info)] per step in the shape prepare_from expects"""
+    from rig.machine_control import scp_connection as sc
+    from rig.machine_control.machine_controller import SpiNNakerRouterError
+    from rig.routing_table import RoutingTableEntry, Routes
+    chips = [dict(c, rows=gen_rows(random.Random(c["rows_seed"]), c["rows_kind"])) for c in case["chips"]]
+    desc = {tuple(c["chip"]): c for c in chips}
+    machine = RouterMachine(chips, case["buf"], sv)
+    net = simnet.Net(machine.handle, lambda k, data: [(1, "ok")])
+
+    def mk(e):
+        return RoutingTableEntry({Routes(r) for r in e[0]}, e[1], e[2])
+    objs, content = {}, {}        # the caller's list objects / the same content as plain data
+    loaded = {}                   # list id -> content when that object was last handed to a load
+    out = []
+    longest = 1
+    with simnet.installed(net):
+        mc = simmachine.make_controller(net)
+        mc._window_size = case.get("window", 1)
+        _ = mc.scp_data_length
+        for step in case["steps"]:
+            for mu in step["mut"]:
+                if mu["m"] == "new":
+                    objs[mu["list"]] = [mk(e) for e in mu["entries"]]
+                    content[mu["list"]] = [list(e) for e in mu["entries"]]
+                    loaded.pop(mu["list"], None)
+                else:
+                    apply_mutation(objs[mu["list"]], mu, mk)
+                    apply_mutation(content[mu["list"]], mu, lambda e: list(e))
+            if step["op"] == "load":
+                tabs = [[step["chip"], step["list"]]]
+            else:
+                tabs = step["tables"]
+            ids = sorted({lid for _, lid in tabs})
+            info = {"reused_changed": any(lid in loaded and loaded[lid] != content[lid] for lid in ids),
+                    "reused_same": any(lid in loaded and loaded[lid] == content[lid] for lid in ids),
+                    "shared": len(tabs) > len(ids)}
+            longest = max([longest] + [len(v) for v in content.values()])
+            targets = [tuple(xy) for xy, _ in tabs]
+            full = {"chips": [desc[xy] for xy in targets],
+                    "bystanders": [c for c in chips if tuple(c["chip"]) not in targets],
+                    "tables": [[list(xy), [list(e) for e in content[lid]]] for xy, lid in tabs],
+                    "app": step["app"], "buf": case["buf"], "via": "entries" if step["op"] == "load" else "tables",
+                    "clear": False, "wide": False, "readback": [tuple(xy) for xy in step["readback"]]}
+            res = {"rows0": {xy: machine.rows_json(xy) for xy in machine.chips}}
+            # what the staging buffers hold now (a load that does not rewrite all of it would install this)
+            res["mem0"] = {xy: [[desc[xy]["sys_buf"] + i, b] for i, b in
+                                enumerate(machine.peek(xy[0], xy[1], desc[xy]["sys_buf"], 16 * (longest + 2)))]
+                           for xy in targets}
+            start = len(net.log)
+            n_pairs = len(machine.pairs)
+            try:
+                if step["op"] == "load":
+                    xy = targets[0]
+                    mc.load_routing_table_entries(objs[step["list"]], xy[0], xy[1], step["app"])
+                else:
+                    mc.load_routing_tables({tuple(xy): objs[lid] for xy, lid in tabs}, step["app"])
+                res["outcome"] = "ok"
+            except SpiNNakerRouterError as e:
+                res["outcome"] = ["RouterError", e.count, e.chip[0], e.chip[1]]
+            except struct.error:
+                res["outcome"] = ["struct.error"]
+            except (sc.TimeoutError, sc.FatalReturnCodeError) as e:
+                res["outcome"] = ["scp", repr(e)]
+            for lid in ids:
+                loaded[lid] = [list(e) for e in content[lid]]
+            res["trace_load"] = traces(net, start)
+            res["rows1"] = {xy: machine.rows_json(xy) for xy in machine.chips}
+            res["readback"], res["trace_get"] = {}, {}
+            for xy in full["readback"]:
+                start = len(net.log)
+                try:
+                    t = mc.get_routing_table_entries(xy[0], xy[1])
+                    res["readback"][xy] = {"ok": [canon_dec(d) for d in t]}
+                except struct.error:
+                    res["readback"][xy] = {"err": ["struct.error"]}
+                except (sc.TimeoutError, sc.FatalReturnCodeError) as e:
+                    res["readback"][xy] = {"err": ["scp", repr(e)]}
+                res["trace_get"][xy] = traces(net, start)
+            res["pairs"] = machine.pairs[n_pairs:]
+            out.append((full, res, info))
+    return out
+
+
+def eval_sessions(ctx, cases, batch=12):
+    sv = sv_layout()
+    for i in range(0, len(cases), batch):
+        items, reqs = [], []
+        for case in cases[i:i + batch]:
+            steps = []
+            for k, (full, res, info) in enumerate(run_session_impl(case, sv)):
+                what = "load_routing_table_entries" if full["via"] == "entries" else "load_routing_tables"
+                # (the controller model of the read-back is compared in the single-load stream; here the read-back is
+                # judged by the Lean oracle ReadbackSpec and the simulator replay only)
+                st, rq = prepare_from(case, full, res, sv, model_get=False, label="session step %d of %d (%s, judged against the list as "
+                                      "it is at this call): " % (k + 1, len(case["steps"]), what))
+                steps.append((st, len(reqs), len(reqs) + len(rq), info))
+                reqs += rq
+            items.append((case, steps))
+        out = ctx.lean(reqs)
+        for case, steps in items:
+            nontrivial = False
+            for st, a, b, info in steps:
+                judge_load(ctx, st, out[a:b], count=False)
+                ctx.tag("session_step")
+                if info["reused_changed"]:
+                    nontrivial = True
+                    ctx.tag("session_list_reused_after_edit")
+                if info["reused_same"]:
+                    ctx.tag("session_list_reused_unchanged")
+                if info["shared"]:
+                    ctx.tag("session_chips_share_list_object")
+            ctx.tag("session")
+            ctx.case(case, nontrivial)
 
 
 def gen_codec(rng, n):
@@ -1016,6 +1274,7 @@ def run(ctx):
     eval_codec(ctx, gen_codec(ctx.rng, n_codec))
     eval_loads(ctx, gen_load_cases(ctx, n_load))
     eval_loads(ctx, gen_load_cases(ctx, ctx.scale(30, 300) * mult, lost=True))
+    eval_sessions(ctx, [gen_session(ctx.rng) for _ in range(ctx.scale(24, 400) * mult)])
 
 
 def replay(ctx, payload):
@@ -1025,5 +1284,7 @@ def replay(ctx, payload):
         eval_forests(ctx, [c])
     elif c.get("kind") == "load":
         eval_loads(ctx, [c])
+    elif c.get("kind") == "session":
+        eval_sessions(ctx, [c])
     else:
         eval_codec(ctx, [c])
